@@ -85,6 +85,9 @@ func dispatchDesc(d []LSpec) []interface{} {
 
 // runSchedule executes a complete schedule and writes its trace.
 func runSchedule(h Header, out *lineWriter) {
+	if h.TrackPay {
+		payTrack = true
+	}
 	s := newSession(h, out)
 	for i, op := range h.Ops {
 		if h.GCEvery > 0 && i%h.GCEvery == 0 {
@@ -159,6 +162,8 @@ func cmdGen(args []string) {
 			Listener: rng.Intn(100) < p.Listener,
 			LS:       63,
 			Generic:  p.Generic,
+			GCEvery:  p.GCEvery,
+			TrackPay: p.TrackPay,
 			Probe:    p.Probe && !p.RandListener,
 			Sweep:    p.Sweep,
 			Shape:    p.Shape,
@@ -197,6 +202,9 @@ func cmdGen(args []string) {
 			}
 		}
 		h.Twin = p.Twin
+		if h.TrackPay {
+			payTrack = true
+		}
 		ss := newSession(h, out)
 		x := ss.a
 		g := &generator{rng: rng, p: &p, x: x, ss: ss}
@@ -208,6 +216,9 @@ func cmdGen(args []string) {
 			}
 		}
 		for i := 0; i < p.Steps; i++ {
+			if h.GCEvery > 0 && i%h.GCEvery == 0 {
+				runtime.GC()
+			}
 			op := g.next()
 			line := ss.step(op)
 			g.markClosed(op, line)
